@@ -96,6 +96,20 @@ def trimmed_labels(trainer, weights, pool_u):
 @st.composite
 def pool_cases(draw):
     d = draw(st.integers(1, 3))
+    if draw(st.integers(0, 2)) == 0:
+        # dedicated class: 4 separated, comparably populated modes at jittered, asymmetric positions (the clusterer then finds
+        # 3-4 clusters; collinear symmetric layouts make its EM stall at one), one of which - any label, not only the last -
+        # loses all its weight between refits of a cadence > 1
+        d = draw(st.integers(2, 3))
+        K = 4
+        corners = draw(st.permutations([[0.25 + 0.5 * ((c >> j) & 1) for j in range(d)] for c in range(2**d)]))[:K]
+        return {"d": d, "K": K, "centres": [[x + draw(st.floats(-0.08, 0.08)) for x in c] for c in corners],
+                "widths": [draw(st.floats(0.008, 0.03)) for _ in range(K)], "mass": [draw(st.floats(0.7, 1.0)) for _ in range(K)],
+                "N": 64, "batches": draw(st.integers(3, 5)), "wsigma": draw(st.sampled_from([0.0, 0.5, 1.0])),
+                "cluster_every": draw(st.sampled_from([2, 3, 5])), "n_max_clusters": draw(st.sampled_from([None, None, 4])),
+                "normalize": draw(st.sampled_from([True, True, False])), "thr": draw(st.sampled_from([0.3, 1.0])), "iters": draw(st.integers(4, 6)),
+                "resample": draw(st.sampled_from(["mult", "syst"])), "seed": draw(st.integers(0, 2**31 - 2)),
+                "die_rate": draw(st.sampled_from([40.0, 100.0])), "die_mode": draw(st.integers(0, 3)), "die_from": draw(st.integers(1, 2))}
     K = draw(st.integers(1, 4))
     return {"d": d, "K": K, "centres": [[draw(st.floats(0.1, 0.9)) for _ in range(d)] for _ in range(K)],
             "widths": [draw(st.floats(0.005, 0.12)) for _ in range(K)], "mass": [draw(st.floats(0.02, 1.0)) for _ in range(K)],
@@ -103,7 +117,7 @@ def pool_cases(draw):
             "cluster_every": draw(st.sampled_from([1, 1, 2, 3, 5])), "n_max_clusters": draw(st.sampled_from([None, None, 1, 2, 4])),
             "normalize": draw(st.booleans()), "thr": draw(st.sampled_from([0.3, 1.0, 3.0])), "iters": draw(st.integers(3, 6)),
             "resample": draw(st.sampled_from(["mult", "syst"])), "seed": draw(st.integers(0, 2**31 - 2)),
-            "die_rate": draw(st.sampled_from([0.0, 0.0, 2.0, 6.0, 20.0])), "die_mode": draw(st.integers(0, 3))}
+            "die_rate": draw(st.sampled_from([0.0, 0.0, 2.0, 6.0, 20.0])), "die_mode": draw(st.integers(0, 3)), "die_from": draw(st.integers(0, 2))}
 
 
 def exec_pool(case):
@@ -139,14 +153,16 @@ def exec_pool(case):
                                calls=0, steps=1, acceptance=1.0, efficiency=1.0, ess=1.0))
         sm.commit_current_to_history()
     np.random.seed(case["seed"])
-    kmax, nonrefit, untrained = 0, 0, 0
+    kmax, nonrefit, untrained, kfit = 0, 0, 0, 0
     for j in range(case["iters"]):
         it = it0 + case["batches"] + j
         sm.set_current("iter", it)
         sm.set_current("beta", 0.3 + 0.1 * j)
         pool_u = sm.get_history("u", flat=True)
         lw = rng.normal(0, case["wsigma"], len(pool_u))
-        lw = lw - case.get("die_rate", 0.0) * (j + 1) * (np.concatenate(comp) == case.get("die_mode", 0) % case["K"])
+        # the mode is alive while the clusterer is first fitted (step 0) and dies from step die_from on
+        if j >= case.get("die_from", 0):
+            lw = lw - case.get("die_rate", 0.0) * (j + 1) * (np.concatenate(comp) == case.get("die_mode", 0) % case["K"])
         w = np.exp(lw - lw.max())
         w /= w.sum()
         where = f"iteration {it} (cluster_every={case['cluster_every']}, step {j})"
@@ -161,6 +177,7 @@ def exec_pool(case):
         if not (it % case["cluster_every"] == 0):
             nonrefit += 1
         kmax = max(kmax, len(set(np.asarray(labels).tolist())))
+        kfit = max(kfit, int(clusterer.n_clusters_))
         if nmc is not None and K > nmc:
             raise Violation(f"{where}: {K} proposal modes exceed n_max_clusters={nmc}", sig={"kind": "cap-exceeded"})
         u = batch(N)  # the next committed batch (mutation itself is not part of this component-level check)
@@ -172,6 +189,7 @@ def exec_pool(case):
         classes.append("has-non-refit-iteration")
     if untrained:
         classes.append("label-without-training-point")
+    classes.append("fitted-clusters=%d" % min(kfit, 5))
     return {"nontrivial": kmax >= 2, "classes": classes,
             "sample": {"d": d, "K_true": case["K"], "N": N, "cluster_every": case["cluster_every"], "cap": nmc, "K_referenced_max": kmax}}
 
